@@ -750,6 +750,17 @@ class Engine:
                 c2 = [n for n in cands if len(self.fns[n].parse().params) == nargs]
                 if len(c2) == 1:
                     return c2[0]
+                # select by the trait's generic argument (From<&T> vs From<T> ...) and by reference-ness of Self
+                targ = mir._norm_arg(m.group(2)[m.group(2).index('<') + 1:m.group(2).rindex('>')]) if '<' in m.group(2) else ''
+                sref = mir._norm_arg(m.group(1))
+                c3 = []
+                for n in cands:
+                    sp = re.search(r'<impl at ([^>]+)>', n).group(1)
+                    self.impls.info(sp)
+                    if self.impls.trait_args.get(sp, '') == targ and self.impls.self_text.get(sp, sref).startswith('&') == sref.startswith('&'):
+                        c3.append(n)
+                if len(c3) == 1:
+                    return c3[0]
                 raise MirError(f'ambiguous impl for {callee}: {cands[:4]}')
             # provided trait method
             cands = [n for n in by_last.get(meth, []) if '<impl at' not in n and suffix_match(n, trait + '::' + meth)]
